@@ -157,72 +157,104 @@ func lastBytesWithEOF(r *mon.Run, rec *recorder) {
 // reference frames of the payloads accepted, and an oversize payload is refused with nothing
 // on the wire.
 func factoryTransports(r *mon.Run, rec *recorder) {
-	sizes := []int{0, 1, 5, 0xFFFF, 0x10000, 0x1FFFF}
-	over := []int{0x20000, 0x20001, 0x30000}
-	for si, spelling := range []string{"nbt", "NBT", "Nbt", "nBT", "nbT"} {
+	si := 0
+	for _, spelling := range []string{"nbt", "NBT", "Nbt", "nBT", "nbT"} {
 		t := transport.NewTransport(spelling)
 		cs := map[string]any{"factory_argument": spelling}
 		if t == nil {
 			rec.Violation(si, "NewTransport:nil", sprintf("NewTransport(%q) returned nil", spelling), cs)
 			continue
 		}
-		ln, err := net.Listen("tcp4", "127.0.0.1:0")
-		if err != nil {
-			rec.Count("factory_scenarios_skipped", 1)
-			continue
-		}
-		got := make(chan []byte, 1)
-		go func() {
-			c, err := ln.Accept()
-			if err != nil {
-				got <- nil
-				return
-			}
-			b, _ := io.ReadAll(c)
-			c.Close()
-			got <- b
-		}()
-		var want []byte
-		problem := ""
-		pan, pv, st := mon.Guard(func() {
-			if err := t.Connect(net.IP{127, 0, 0, 1}, ln.Addr().(*net.TCPAddr).Port); err != nil {
-				problem = "connect"
-				return
-			}
-			for _, n := range sizes {
-				p := make([]byte, n)
-				for i := range p {
-					p[i] = byte(i*7 + n)
-				}
-				if _, err := t.Send(p); err != nil {
-					problem = sprintf("Send of %d octets refused: %v", n, err)
-					break
-				}
-				f, _ := refEncode(p)
-				want = append(want, f...)
-			}
-			for _, n := range over {
-				if _, err := t.Send(make([]byte, n)); err == nil {
-					problem = sprintf("Send of %d octets (beyond the 17-bit length) accepted", n)
-				}
-			}
-			t.Close()
-		})
-		ln.Close()
-		wire := <-got
-		rec.Eval(len(sizes) + len(over))
-		switch {
-		case pan:
-			rec.Violation(si, "NewTransport:panic", sprintf("panic %v at %s", pv, mon.TopLibFrame(st)), cs)
-		case problem == "connect":
-			rec.Count("factory_scenarios_io_error", 1)
-		case problem != "":
-			rec.Violation(si, "NewTransport:framing:refusal", sprintf("transport from NewTransport(%q): %s", spelling, problem), cs)
-		case !bytes.Equal(wire, want):
-			rec.Violation(si, "NewTransport:framing:wire", sprintf("transport from NewTransport(%q) put %d octets on the wire, the session frames of the accepted payloads are %d octets (first difference at %d)", spelling, len(wire), len(want), firstDiff(wire, want)), cs)
-		}
-		rec.Nontrivial("factory|" + spelling)
+		factoryRun(rec, si, sprintf("NewTransport(%q)", spelling), "NewTransport", t, "127.0.0.1:0", cs)
+		si++
 	}
+	// the ports the session service and direct hosting use: the framing is that of RFC 1002
+	// whatever the port number is
+	for _, port := range []int{139, 445, 137, 138, 1139} {
+		addr := sprintf("127.0.0.1:%d", port)
+		for k, mk := range []func() factoryXport{
+			func() factoryXport { return transport.NewTransport("nbt") },
+			func() factoryXport { return nbt.NewNBTTransport() },
+		} {
+			t := mk()
+			cs := map[string]any{"port": port, "constructor": []string{"transport.NewTransport(\"nbt\")", "nbt.NewNBTTransport()"}[k]}
+			if factoryRun(rec, si, sprintf("%s connected to port %d", cs["constructor"], port), "port"+fmt.Sprint(port), t, addr, cs) {
+				rec.Count(sprintf("transports_connected_to_port_%d", port), 1)
+			}
+			si++
+		}
+	}
+}
+
+type factoryXport interface {
+	Connect(net.IP, int) error
+	Send([]byte) (int, error)
+	Close() error
+}
+
+// factoryRun reports whether the scenario ran (the listener could be bound and connected to).
+func factoryRun(rec *recorder, si int, what, key string, t factoryXport, addr string, cs map[string]any) bool {
+	sizes := []int{0, 1, 5, 0xFFFF, 0x10000, 0x1FFFF}
+	over := []int{0x20000, 0x20001, 0x30000, 0xFFFFFF, 0x1000000}
+	ln, err := net.Listen("tcp4", addr)
+	if err != nil {
+		rec.Count("factory_scenarios_skipped", 1)
+		return false
+	}
+	got := make(chan []byte, 1)
+	go func() {
+		c, err := ln.Accept()
+		if err != nil {
+			got <- nil
+			return
+		}
+		b, _ := io.ReadAll(c)
+		c.Close()
+		got <- b
+	}()
+	var want []byte
+	problem := ""
+	pan, pv, st := mon.Guard(func() {
+		if err := t.Connect(net.IP{127, 0, 0, 1}, ln.Addr().(*net.TCPAddr).Port); err != nil {
+			problem = "connect"
+			return
+		}
+		for _, n := range sizes {
+			p := make([]byte, n)
+			for i := range p {
+				p[i] = byte(i*7 + n)
+			}
+			if _, err := t.Send(p); err != nil {
+				problem = sprintf("Send of %d octets refused: %v", n, err)
+				break
+			}
+			f, _ := refEncode(p)
+			want = append(want, f...)
+		}
+		for _, n := range over {
+			if _, err := t.Send(make([]byte, n)); err == nil {
+				problem = sprintf("Send of %d octets (beyond the 17-bit length) accepted", n)
+			}
+		}
+		t.Close()
+	})
+	ln.Close()
+	wire := <-got
+	rec.Eval(len(sizes) + len(over))
+	ran := true
+	switch {
+	case pan:
+		rec.Violation(si, key+":panic", sprintf("panic %v at %s", pv, mon.TopLibFrame(st)), cs)
+	case problem == "connect":
+		rec.Count("factory_scenarios_io_error", 1)
+		ran = false
+	case problem != "":
+		rec.Violation(si, key+":framing:refusal", sprintf("transport from %s: %s", what, problem), cs)
+	case !bytes.Equal(wire, want):
+		rec.Violation(si, key+":framing:wire", sprintf("transport from %s put %d octets on the wire, the session frames of the accepted payloads are %d octets (first difference at %d)", what, len(wire), len(want), firstDiff(wire, want)), cs)
+	}
+	rec.Nontrivial("factory|" + what)
+	return ran
 }
 
 // hugeSends: payloads far beyond the 17-bit length (around multiples of 16 MiB, where the flags
@@ -271,16 +303,35 @@ func hugeSends(r *mon.Run, rec *recorder) {
 // response 0x82) between session messages. Receive may report them as errors, but every message
 // it returns without error must be one the peer sent, in order — never a fabricated one.
 func otherPacketTypes(r *mon.Run, rec *recorder) {
-	for run := 0; run < r.Pick(60, 600); run++ {
+	for run := 0; run < 255+r.Pick(60, 600); run++ {
 		rng := r.Rand(fmt.Sprintf("types|%d", run))
 		var stream []byte
 		var sent [][]byte
-		for k := 0; k < 2+rng.IntN(6); k++ {
-			switch rng.IntN(3) {
+		if run < 255 {
+			// every TYPE octet but 0x00 in turn, with and without a trailer
+			ty := byte(run + 1)
+			for k, tl := range []int{8, 0, 4} {
+				stream = append(stream, ty, 0, 0, byte(tl))
+				stream = append(stream, bytes.Repeat([]byte{0xEE}, tl)...)
+				p := bytes.Repeat([]byte{byte(0x41 + k)}, 1+k*3)
+				f, _ := refEncode(p)
+				stream = append(stream, f...)
+				sent = append(sent, p)
+			}
+		}
+		for k := 0; run >= 255 && k < 2+rng.IntN(6); k++ {
+			switch rng.IntN(4) {
 			case 0:
 				stream = append(stream, []byte{0x85, 0, 0, 0}...)
 			case 1:
 				stream = append(stream, []byte{0x82, 0, 0, 0}...)
+			case 2:
+				// any other TYPE octet, defined by RFC 1002 or not; its trailer is made of octets
+				// that are no session-message header either (a whole number of 4-octet groups)
+				ty := byte(1 + (run*5+k*3+rng.IntN(2)*128)%255)
+				tl := 4 * rng.IntN(4)
+				stream = append(stream, ty, 0, 0, byte(tl))
+				stream = append(stream, bytes.Repeat([]byte{0xEE}, tl)...)
 			}
 			p := make([]byte, []int{0, 1, 5, 64, 300}[rng.IntN(5)])
 			for i := range p {
@@ -293,7 +344,7 @@ func otherPacketTypes(r *mon.Run, rec *recorder) {
 		c := &faultConn{data: stream, failAt: len(stream) + 1, seg: 1 + rng.IntN(9)}
 		t := nbt.NewNBTTransportFromConn(c)
 		next := 0
-		for call := 0; call < 40; call++ {
+		for call := 0; call < 60; call++ {
 			var got []byte
 			var err error
 			pan, pv, st := mon.Guard(func() { got, err = t.Receive() })
